@@ -13,7 +13,7 @@ def run(ctx):
     rng = random.Random(ctx.seed)
     corr = core.Corr()
     thorough = ctx.tier == 'thorough'
-    corr.rule = ('well-formed replays x read fragmentation (whole, 1-byte reads, fixed chunks, cyclic irregular chunks, two-piece splits) x skip_frames x hash on/off; '
+    corr.rule = ('well-formed replays x read fragmentation (whole, 1-byte reads, fixed chunks, cyclic irregular chunks, two-piece splits) x skip_frames x hash on/off/no options at all; '
                  'oracle: hash == "xxh3:" + 16 lower-case hex digits of the one-shot XXH3-64 of the whole file (computed by a different code path), none when '
                  'not requested; the hash string survives a .slpp round trip unchanged')
     reps = [synth.gen_wf(rng, end=rng.choice(['single', 'double', 'single', None])) for _ in range(400 if thorough else 60)]
@@ -24,7 +24,7 @@ def run(ctx):
         if thorough:
             frs += ['%d,100000' % k for k in rng.sample(range(1, len(b)), min(30, len(b) - 1))]
         for j, fr in enumerate(frs):
-            for o in (['h', 'hs'] if r.end else ['h']) + (['-'] if j == 0 else []):
+            for o in (['h', 'hs'] if r.end else ['h']) + (['-', 'N'] if j == 0 else []):      # 'N': opts = None (the API's defaults: no hash)
                 cid = 'c%d_%d_%s' % (i, j, o.replace('-', 'n'))
                 cases.append((cid, [b.hex(), o, fr, '-'])); info.append((cid, i, o, fr))
     impl, model = both_modes(ctx, 'read', cases, corr, parallel=16, hashes=True)
@@ -53,6 +53,16 @@ def run(ctx):
         exp = (xx.get('x' + cid[1:]) or ['?'])[0]
         if d.get('g2.hash') != exp:
             corr.oracle_failures.append((cid, 'hash after the .slpp round trip is %s, expected %s' % (d.get('g2.hash'), exp), {'mode': 'slpp', 'fields': f}))
+    # not requested (explicitly, or by calling with no options at all): nothing is stored in the archive either
+    sl2 = [('y%d_%s' % (i, o), [synth.emit(r).hex(), o, rng.choice(['n', 'l', 'z']), po]) for i, r in enumerate(reps[:16]) for o, po in (('-', '-'), ('N', 'N'))]
+    res2 = core.run_parallel(R.run_pvh, 'slpp', sl2, n=16, timeout_ms=60000)
+    for cid, f in sl2:
+        corr.seen('slpp-nohash' + f[0] + f[1]); corr.count('slpp_no_hash')
+        d = dump_dict(res2.get(cid) or [])
+        if d.get('g2.hash') != 'none':
+            corr.oracle_failures.append((cid, 'no hash was requested (%s) but the game read back from .slpp reports %s'
+                                         % ('opts = None' if f[1] == 'N' else 'compute_hash = false', d.get('g2.hash', (res2.get(cid) or ['?'])[:2])),
+                                         {'mode': 'slpp', 'fields': f, 'replay_hex': f[0], 'rerun': 'pvh slpp <file: x <replay_hex> %s %s %s>' % (f[1], f[2], f[3])}))
     corr.sample({'bytes': len(cases[0][1][0]) // 2, 'opts': cases[3][1][1], 'chunks': cases[3][1][2]})
     # arbitrary read schedules (short reads of any size, Interrupted retries): same game, hash over exactly the consumed bytes
     readsched_corr(ctx, corr, rng, [synth.emit(r) for r in reps[:(120 if thorough else 30)]], 3, faults=False, opts=('h',))
